@@ -239,3 +239,44 @@ def r15_datafile_order(ctx, rule='R15'):
     ctx.run.check(ok, rule, pr.where if pr else fd.where, (pr or rp).qualname, 'writer(temp_file, ...) and rows_processor(.., temp_file)',
                   'the format writer does not write into the temp file that is measured, hashed and copied out')
     return rp
+
+
+def stream_roles(ctx):
+    """Functions of processors/stream.py by role: factory, line writer, row writer generator, package step."""
+    from sa.model import row_loops
+    from sa.loader import FuncInfo
+    step = stream_func(ctx)
+    fac = step.parent
+    if not isinstance(fac, FuncInfo):
+        raise AnalysisError('stream: factory not found')
+    sibs = [f for f in ctx.repo.functions.values() if f.parent is fac and f is not step and not isinstance(f.node, ast.Lambda)]
+    writers = [f for f in sibs if not f.is_generator and any(isinstance(n, ast.Call) and isinstance(n.func, ast.Attribute)
+                                                               and n.func.attr == 'write' for n in own_nodes(f.node))]
+    rowgens = [f for f in sibs if f.is_generator and row_loops(f)]
+    if len(writers) != 1 or len(rowgens) != 1:
+        raise AnalysisError('stream: line writer / row writer not found by role (%d / %d candidates)' % (len(writers), len(rowgens)))
+    return dict(factory=fac, write=writers[0], rows=rowgens[0], step=step)
+
+
+def one_line_per_object(ctx, write_fi):
+    """The line writer emits exactly <ejson.dumps(obj) without indent> followed by one newline: (ok, description)."""
+    from rules.matchers import _parts
+    from sa.normalize import resolve_here
+    w = ctx.N(write_fi)
+    calls = [n for n in ast.walk(w.node) if isinstance(n, ast.Call) and isinstance(n.func, ast.Attribute) and n.func.attr == 'write']
+    if len(calls) != 1 or len(calls[0].args) != 1:
+        return False, 'not exactly one file.write(...) call'
+    arg = resolve_here(calls[0].args[0])
+    parts = _parts(ctx, arg, w, None)
+    lits = ''.join(p[1] for p in parts if p[0] == 'lit')
+    vars_ = [p for p in parts if p[0] == 'var']
+    if lits != '\n' or len(vars_) != 1 or parts[-1][0] != 'lit':
+        return False, 'written text is not <document> + newline: %s' % parts
+    dumps = [n for n in ast.walk(arg) if isinstance(n, ast.Call) and u(n.func) in ('ejson.dumps', 'json.dumps')]
+    if len(dumps) != 1 or u(dumps[0].func) != 'ejson.dumps':
+        return False, 'the document is not produced by one ejson.dumps call'
+    if not dumps[0].args or pseudo(dumps[0].args[0]) not in w.all_params:
+        return False, 'the serialised object is not the argument of the writer'
+    if any(k.arg == 'indent' and not (isinstance(k.value, ast.Constant) and k.value.value is None) for k in dumps[0].keywords):
+        return False, 'ejson.dumps is called with an indent: a document spans several lines'
+    return True, 'file.write(ejson.dumps(obj) + newline)'
